@@ -91,6 +91,20 @@ def gen_case(rng, tier):
             cmds.append('reopen')
     if rng.random() < 0.4:
         cmds.append('failexport')          # an export of another collection fails first, in the same process
+    if rng.random() < 0.25:
+        # a few large documents, then a small one with the largest id; the unchanged collection is exported several times
+        big = 60000
+        for k in range(3):
+            id_ = big + k
+            v = [1.0 if not math.isfinite(stored(q, x)) else x for x in (comp(rng, q) for _ in range(dim))]
+            md = json.dumps({'blob': 'm%d-' % k + 'x' * rng.choice([33000, 40000, 70000]), 'k': k}).encode()
+            cmds.append('add %d %s %s' % (id_, md.hex(), ' '.join(str(bits(x)) for x in v)))
+            spec[id_] = (md, [stored(q, x) for x in v])
+        v = [1.0 if not math.isfinite(stored(q, x)) else x for x in (comp(rng, q) for _ in range(dim))]
+        cmds.append('add %d %s %s' % (big + 9, b'{"last":true}'.hex(), ' '.join(str(bits(x)) for x in v)))
+        spec[big + 9] = (b'{"last":true}', [stored(q, x) for x in v])
+        cmds += ['docs'] + ['export'] * 5 + ['import']
+        return cmds, spec, {'dim': dim, 'q': q, 'metric': metric}
     cmds += ['docs', 'export', 'import']
     return cmds, spec, {'dim': dim, 'q': q, 'metric': metric}
 
@@ -124,6 +138,9 @@ def judge(cmds, lines, rc, err, spec, info):
     f = ex[0].split()
     if f[1] != 'ok':
         return 'ExportJSON failed on a collection whose metadata are JSON values'
+    for k, other in enumerate(ex[1:], 2):
+        if other != ex[0]:
+            return 'export number %d of the unchanged collection differs from the first one (%d and %d bytes): an export is a function of the collection' % (k, len(ex[0]) // 2, len(other) // 2)
     text = bytes.fromhex(f[2]) if len(f) > 2 else b''
     try:
         tree = strict_loads(text)
